@@ -434,7 +434,7 @@ CORNER += [{"kind": "new", "a": {**_BLANK, "time": t}} for t in EDGE_TIME]
 
 
 def generate(rng, tier, mult):
-    n = (120 if tier == "quick" else 3500) * mult
+    n = (120 if tier == "quick" else 3000) * mult
     cases = list(CORNER)
     for _ in range(n):
         a = gen_valid(rng, rich=True)
